@@ -204,7 +204,7 @@ def mm_stage(prop, tier, name, configs, workers=12):
                                                   "UniqProgs": {k: sorted(v) for k, v in uniqs.items()}}})
     for (cname, ops, nt, maxops, maxinit, handoff) in configs:
         out, st = run_tlc(wd, "MC_ArcMM.tla", mm_cfg(ops, nt, maxops, maxinit, handoff), cname, workers=workers,
-                          timeout=3000, java_opts=["-Xmx12g"])
+                          timeout=5400, java_opts=["-Xmx12g"])
         res["states"] += st["distinct"]
         res["transitions"] += st["generated"]
         res["evaluations"] += 1
